@@ -137,4 +137,84 @@ theorem single_request_bufread_e2e {p : Preamble} {recs : List Rec} {content : B
   · exact ⟨c', fin, O1, O2, shown, pad, res, hrun, hO.trans hOt.symm, ⟨hfu.ev.1, hfu.ev.2⟩, ⟨hseen.1, hseen.2.1⟩,
       hseen.2.2, by rw [hfu.log, lb_eq], hfu.sc, Or.inl ⟨hfu.nokeep, hfin, hfu.ph⟩⟩
 
+/-! ## The per-poll ledger of `Props/C09E2E.lean` -/
+
+theorem rounds_reading (n k : Nat) : ∀ op ∈ rounds n k ++ [.fill], C09E.isReadingOp op = true := by
+  induction n with
+  | zero => intro op hop; simp [rounds] at hop; subst hop; rfl
+  | succ n ih =>
+    intro op hop
+    simp only [rounds, List.cons_append, List.mem_cons] at hop
+    rcases hop with rfl | rfl | hop
+    · rfl
+    · rfl
+    · exact ih op hop
+
+/-- The reading part of `bscript` is a script of reading operations in the sense of `Props/C09E2E.lean`:
+in every poll of the handler, what its `consume`s take (`C09E.ledgerPoll`) continues the bytes handed over
+so far to a prefix of the stream content — in order, each byte once (`C09E.reads_are_prefix`).  The
+whole-run theorem above adds that over all polls the sum is the whole content. -/
+theorem bufread_ledger_prefix {K : RCtx} (hK : K.OK) {L P handed : Bytes} {r : AReq} {e : Run.Env} (n k fuel : Nat)
+    (hs : C09E.RdSt K L P handed r { ops := rounds n k ++ [.fill] } e) :
+    handed ++ C09E.ledgerPoll fuel r { ops := rounds n k ++ [.fill] } e <+: K.C :=
+  C09E.reads_are_prefix hK fuel hs
+
+/-! ## Non-vacuity -/
+namespace Example
+open Fcgi.C07E.Example
+
+/-- Responder request 1, KEEP_CONN, no parameters -/
+def preB : Preamble := { id := 1, role := 1, flags := 1, pairs := [] }
+def recsB : List Rec :=
+  [ { rtype := 1, id := 1, content := [0, 1, 1, 0, 0, 0, 0, 0], pad := [] },
+    { rtype := 4, id := 1, content := [], pad := [] } ]
+theorem recsB_wf : WellFormedPreamble preB recsB :=
+  .begin [] 0 [0, 0, 0, 0, 0] rfl (by decide) (by decide) (by decide) (fun q hq => by cases hq) (.done [] 0 (by decide))
+
+/-- Stdin: `"ABC"`, `"DE"` (3 bytes of padding), the terminator -/
+def sB : List Rec :=
+  [ { rtype := 5, id := 1, content := [65, 66, 67], pad := [] },
+    { rtype := 5, id := 1, content := [68, 69], pad := [0, 0, 0] },
+    { rtype := 5, id := 1, content := [], pad := [] } ]
+theorem sB_ok : StreamRecs 1 5 [65, 66, 67, 68, 69] sB :=
+  .chunk [65, 66, 67] [] 0 (by decide) (by decide)
+    (.chunk [68, 69] [0, 0, 0] 0 (by decide) (by decide) (.term [] 0 (by decide)))
+
+def bT : Transport :=
+  { input := serAll recsB ++ serAll sB, endMode := .pend,
+    rd := [.n 24, .n 7, .pending, .n 9, .all], wr := [.n 5, .pending, .all], fl := [] }
+
+/-- `single_request_bufread_e2e`, one byte at a time (`k = 1`), exactly `|content| = 5` rounds.  The same
+wire with two `GetValues` records interleaved was replayed on the crate for `k = 64, 1, 2`
+(`/verif/.run/replay-c07-bufread.ops`, model driver = crate), e.g. `# case c07buf-keep-k1-split`:
+`… f=3:414243 f=2:4243 f=1:43 R63:3 R60:P |4 R60:41 f=2:4445 f=1:45 W32:32 f=0:- o=w0 V8+2+6:16 W=ok
+HE(ok:complete:3) W32:32 R64:W STALL`: a slice is shown again, one byte shorter, until it is used up; the
+sixth `fill_buf` shows the empty slice. -/
+example : ∃ c' shown, runTask 20 (connS 64 10 bT [(bscript 5 1 [111, 107] (.complete 3), true)]) 0 none = (c', "STALL") ∧
+    [65, 66, 67, 68, 69] = taken 1 shown ∧ (∀ s ∈ shown, fillEvent s ∈ c'.env.tr.events) ∧
+    fillEvent [] ∈ c'.env.tr.events ∧
+    c'.env.tr.wlog = streamRecords 6 1 [111, 107] ++ epilogue 1 (.complete 3) ∧
+    hsCount c'.env.tr.events = 1 ∧ c'.env.tr.input = [] := by
+  obtain ⟨c', fin, O1, O2, shown, pad, res, hrun, hO, ho⟩ := single_request_bufread_e2e (p := preB) (recs := recsB)
+    (content := [65, 66, 67, 68, 69]) (srecs := sB) (b := 64) (mc := 10) (n := 5) (k := 1) (data := [111, 107])
+    (st := .complete 3) (more := []) (t := bT) (fuel := 20)
+    recsB_wf rfl (fun q hq => by cases hq) (no_getValues_fits (by decide)) sB_ok (no_getValues_fits (by decide))
+    (by decide) (by decide) rfl ⟨by decide, by decide, rfl, by decide⟩ rfl (by decide) (by decide +kernel)
+    (by decide +kernel)
+  have hO0 : owedStream 1 5 10 sB = [] := by decide +kernel
+  rw [show preB.id = 1 from rfl, hO0] at hO
+  obtain ⟨h1, h2⟩ := List.append_eq_nil_iff.1 hO
+  subst h1 h2
+  rcases ho.final with ⟨h, _⟩ | ⟨_, h, _⟩ | ⟨_, _, hfin, _, hin, _⟩
+  · exact absurd h (by decide)
+  · exact absurd h (by decide)
+  · subst hfin
+    refine ⟨c', shown, hrun, ho.consumed.1, ho.consumed.2, ho.eof, ?_, ho.one_handler.1, hin⟩
+    rw [ho.log]
+    have h1 : owedPreamble preB 10 recsB = [] := by decide +kernel
+    simp [expectedLogN, h1, bT]
+    rfl
+
+end Example
+
 end Fcgi.C07B
